@@ -460,7 +460,8 @@ def run_encode_batch(cases: list[dict], rng) -> list[dict]:
         vpn = int(case['rd'] is not None)
         rd = case['rd'] or '-'
         r['i_exa'] = len(lines)
-        lines.append(f'flow exaenc {rd} {tcomp_words(case)}'.rstrip())
+        hint6 = int(any(kw and rig.KEYWORDS[kw][4] == 2 for kw in case['kws']))  # an IPv6-only keyword is present
+        lines.append(f'flow exaenc {hint6} {rd} {tcomp_words(case)}'.rstrip())
         r['i_enc'] = len(lines)
         lines.append(f'flow enc {case["v6"]} {vpn} {rd} {rule_words(rule)}'.rstrip())
         r['i_tor'] = len(lines)
